@@ -124,6 +124,29 @@ CHECKS.update({
    design="4/C17"),
 })
 
+CHECKS.update({
+ "C05": dict(
+   level="model_checking",
+   text="Dce.tla models the selector of compiler/internal/dce step by step (Include with the two filters, the pending stack, AliveDecls releasing the infos registered under a dependency) and defines the reference alive set as the least fixpoint of a declaration graph; TLC checks on every small declaration graph of a configured space under every pop order and every dependency order, and on seeded graphs of 5-6 declarations: least fixpoint, order independence, closure under deps, no lost info, termination. DceTopo.tla is the reference semantics of dispatch topologies (reach kind: interface, method value, method expression, embedding by value/pointer, generic call, local type, side-effecting initialiser x exported x pointer receiver x type kind x carrier x distractor type x second interface x holder) and of package-variable scenarios (initialiser kind x form x read or not), with the declaration graph the compiler's naming scheme yields; TLC checks Executed <= Needed <= Alive on each and emits the predicted output. Every scenario is rendered as a Go package, batched into programs, compiled once and linked twice - normally and with every Decl.Dce().SetAsAlive() -; both are run under Node and must print the prediction (native Go as guard). Conformance: the REAL per-declaration DCE data of built programs is loaded into Dce.tla as constants and the alive set TLC computes must equal what the real selector kept (compiler.VerifAliveDecls) and what was emitted (else MODEL-DRIFT). go:linkname scenarios, hand-written witness packages and MiniGo programs are run the same way (DCE on/off must agree).",
+   note="Trusted: TLC, Node, native Go as guard. A compiler failure before linking is not judged here (C01/C04). Known gap listed as finding: an unread variable whose initialiser is observable only by panicking is dropped.",
+   technique="TLA+ model of the dead-code selector + reference fixpoint (Dce.tla), TLA+ reference of dispatch topologies (DceTopo.tla), TLC-enumerated scenarios linked with and without elimination, real DCE data checked against the model",
+   design="4/C05"),
+ "C19": dict(
+   level="model_checking",
+   text="SourceMap.tla models the hint filter (internal/sourcemapx/filter.go) as a state machine over token streams (code bytes, newlines, multi-byte characters, position hints, identifier hints) cut into Write calls at every place that does not split a hint, and states the reference result (output = input minus hints; a mapping's generated position = line/column of the next output byte when its hint is consumed; independent of the chunking; the offset rule of WriteJS; removeWhitespace keeps hints); TLC checks the machine against the reference while emitting every (stream, chunking) scenario with the predicted output bytes and mappings. Every scenario is replayed through the real Filter / removeWhitespace / WriteJS (guarded exports) and the bytes written and the decoded source map are compared with the prediction. Whole programs (MiniGo programs with stack-recording trace points, programs that panic on a known line, a program with an .inc.js file) are built with and without minification; out.js / out.js.map are validated against the mapping rule: no hint byte in the output, hint-free output identical to a build without mapping, every generated position exists, every original line exists, statement starts map to the first line of their Go statement, a thrown error's frames resolve through the map.",
+   note="Trusted: TLC, Node, the source-map decoder of the harness. Identifier names after esbuild minification are not modelled. Three known findings (branch conditions mapped to no position, first-line column offset of WriteJS blocks, prelude source named numberic.js).",
+   technique="TLA+ state machine of the source-map hint filter with its reference (SourceMap.tla) + TLC stream/chunking enumeration replayed on the real Filter + whole-program map validation",
+   design="4/C19"),
+ "C20": dict(
+   level="model_checking",
+   text="Cache.tla is a state machine of the cache directory (final and temporary files; Store as CreateTemp -> Write -> Close -> Rename with a crash after any step; damage by the environment; source modification; Load); TLC checks that the operational Load agrees with the declarative statement of the property in every reachable state (and that five seeded wrong variants of the model are rejected). CacheScen.tla enumerates histories over pairs of configurations that differ in exactly one key field (GOOS, GOARCH, GOROOT, GOPATH, build tags incl. {a,b} vs {\"a,b\"}, version, tested package, field-boundary and path-cleaning collisions) with the predicted outcome of every operation, of every Load and of the directory listing; the histories are replayed on the real cache.BuildCache in child processes whose cache root lies in the scratch directory - crashes are real process deaths at the fail points of Store, every other operation reuses one long-lived BuildCache value - and compared. A damage sweep truncates one stored entry at every byte offset and flips bits in it (must be a miss, never a panic, never altered content); a round trip stores, restores and compiles real packages through the build session and requires byte-identical JavaScript.",
+   note="Trusted: TLC, the file system of the sandbox. The default cache is disabled by a constant in NewSession: the round trip installs the real BuildCache through a guarded export. One known finding (free-floating linkname directives are lost by the serialiser).",
+   technique="TLA+ state machine of the cache directory with crash steps (Cache.tla) + TLC history enumeration (CacheScen.tla) replayed on the real BuildCache with real process deaths + damage sweep + round trip",
+   design="4/C20"),
+})
+CHECKS["C12"]["text"] = "Overlay.tla is the reference semantics of the documented overlay merge (doc/pargma.md and the comments of parseAndAugment/overrideInfo/pruneImports: override, keep-original, purge incl. methods of purged types, override-signature, import pruning, init never overridden). Imports are used by function bodies, initialisers and function/method SIGNATURES (parameter, result and constraint types of imported packages, unsafe.Pointer); under override-signature the original signature's uses disappear and the overlay signature's uses count for the original file. OverlayScen.tla makes TLC enumerate pairs (original side, overlay side) exhaustively over two small universes and by seeded sampling over a 4-name universe, checks the theorems of the reference on every pair (every overlay declaration present, no duplicate keys, empty overlay is the identity, unrelated declarations untouched, only inputs, ImportsExact = no unused and no missing import after the merge, nothing added) and emits the predicted item set Merged. Each pair is rendered as two Go files with provenance markers, parsed and run through the REAL augmentOverlayFile / augmentOriginalImports / augmentOriginalFile (guarded export build.VerifAugment, same order as parseAndAugment); the item set read back from the ASTs (symbols, full signature text, bodies, initial values, order, imports, directives) must equal Merged and, when the reference says the pair is consistent, the merged package must type-check with go/types. A last phase merges every overlay package of compiler/natives with its GOROOT original and checks version-independent structural invariants."
+CHECKS["C12"]["note"] = "Trusted: TLC, go/parser, go/types (with a fixed importer) as guard of consistency. Unspecified and not judged: an override-signature whose overlay signature names an import the original file lacks. Known findings with classifiers: const groups with iota, free-floating linkname directives."
+
 NOT_YET = "check not built yet in this round (planned in DESIGN.md section 9)"
 ALL = ["C%02d" % i for i in range(1, 21)]
 
